@@ -164,6 +164,15 @@ def check_results(ctx, results_path, scns, mode, label):
 MODES = ("direct", "stream", "init")
 
 
+def validate_all(ctx, traces, label, variant="binance"):
+    """quick: one TLC run for the traces of all modes; thorough: one per mode (the traces are large)."""
+    if ctx.quick or len(traces) == 1:
+        validate(ctx, traces, label, variant)
+    else:
+        for t in traces:
+            validate(ctx, [t], label + "-" + t[0], variant)
+
+
 def run_scenarios(ctx, scn_path, scns, modes, label, variant="binance"):
     traces = []
     for mode in modes:
@@ -173,7 +182,7 @@ def run_scenarios(ctx, scn_path, scns, modes, label, variant="binance"):
         check_results(ctx, res, scns, mode, label + "/" + mode)
         traces.append((mode, tr))
         ctx.cov["scenarios_replayed"] += len(scns)
-    validate(ctx, traces, label, variant)
+    validate_all(ctx, traces, label, variant)
 
 
 def spec_rejects_wrong_emission_order(ctx):
@@ -233,7 +242,7 @@ def check(ctx):
         ctx.tlc_mc("MC_" + MODULE, "MC_BinanceL2_thorough.cfg", timeout=1800, coverage=False)
         ctx.tlc_mc("MC_" + MODULE, "MC_BinanceL2_long.cfg", timeout=1800, coverage=False)
     p_t, scn_t = ctx.tlc_gen("Gen_" + MODULE, "GenT_BinanceL2.cfg" if ctx.quick else "GenT_BinanceL2_thorough.cfg", "transitions.ndjson", timeout=900)
-    nb = 150 if ctx.quick else 1500
+    nb = 100 if ctx.quick else 1500
     p_b, scn_b = ctx.tlc_gen("Gen_" + MODULE, "GenB_BinanceL2.cfg", "behaviours.ndjson", simulate=(nb, 50), timeout=1200)
     t0 = dict(scn_t[len(scn_t) // 2])
     ctx.sample({"kind": "TLC delivery sequence (one instrument, exhaustive)", "scenario": t0})
@@ -248,7 +257,7 @@ def check(ctx):
         out = ctx.path("trace_random_%s.ndjson" % mode)
         ctx.harness("c06", "random", "--seed", ctx.seed, "--segments", segments, "--trace", out, "--mode", mode)
         traces.append((mode, out))
-    validate(ctx, traces, "random")
+    validate_all(ctx, traces, "random")
     latent_generic_init_order(ctx)
     return ctx.finish()
 
